@@ -27,6 +27,7 @@ def mentioned_vars(q):
     walk(q["cond"], f)
     walk(q.get("flats", []), f)
     walk(q.get("head", {}), f)
+    walk([v.get("fields", []) for v in q.get("vars", [])], f)
     return seen
 
 
